@@ -466,6 +466,13 @@ func configs() []config {
 	enc := mk("tx-encodings", map[uint16]int{2: 64}, []uint16{2}, []string{"0xab", "0xab00", h32 + "01", h32 + "0102", h32 + "0103", "0x"}, []int{660}, 0)
 	enc.Depth = 3
 	out = append(out, enc)
+	// ... and after LEFT padding / keeping the last 32 bytes (what a conversion to a fixed-size hash type does): 1 byte
+	// vs 00 + the same byte; empty vs 00; 32 bytes vs the same 32 bytes behind one more byte; 33 bytes differing only
+	// in the first byte
+	t32 := strings.Repeat("22", 32)
+	enc2 := mk("tx-encodings-left", map[uint16]int{2: 64}, []uint16{2}, []string{"0xab", "0x00ab", "0x", "0x00", "0x" + t32, "0x01" + t32, "0x02" + t32}, []int{660}, 0)
+	enc2.Depth = 3
+	out = append(out, enc2)
 	// long horizon: few events, many steps - histories in which an entry expires, is forwarded again and
 	// interacts with a younger entry over several purge periods
 	lh := mk("long-horizon-two-tx", map[uint16]int{2: 64}, []uint16{2}, []string{"a", "b"}, []int{240, 420}, 0)
